@@ -180,7 +180,9 @@ fn gen_case(rng: &mut Rng, big_ok: bool) -> Vec<String> {
                 let n = rng.usize(5);
                 if n == 0 { "dels -".to_string() } else { format!("dels {}", (0..n).map(|_| rng.pick(&keys).to_string()).collect::<Vec<_>>().join(",")) }
             }
-            _ => "reopen".to_string(),
+            // a fresh wrapper over the same backend, half of the time under ANOTHER chunk size: what a stored
+            // object needs in order to be read (its own chunk size) is in its sidecar, not in the configuration
+            _ => if rng.chance(1, 2) { format!("reopen-cs {}", [5u64, 16, 64][rng.usize(3)]) } else { "reopen".to_string() },
         };
         // the same call through the `ObjectStoreExt` convenience method
         let w: Vec<&str> = op.split(' ').collect();
@@ -356,6 +358,17 @@ async fn run_case(ops: &[String]) -> Result<CaseOut, String> {
         let _ = op_full;
         if via_b && ref_before_b.is_none() {
             ref_before_b = Some(rf.backend.fork());
+        }
+        if let ["reopen-cs", c] = w.as_slice() {
+            ref_before_b = None;
+            if let Flavor::Enc(_) = wr.flavor {
+                wr.flavor = Flavor::Enc(c.parse().map_err(|_| "chunk size")?);
+            }
+            wr.reopen();
+            out.wrapper.push("ok".into());
+            out.reference.push("ok".into());
+            out.hits.push("op:reopen-cs".into());
+            continue;
         }
         if op == "reopen" {
             ref_before_b = None;
@@ -604,7 +617,8 @@ fn eval(rt: &tokio::runtime::Runtime, ops: &[String], model: &mut Option<ModelPr
                 b.push("ok".to_string());
                 continue;
             }
-            let ans = m.ask(op);
+            // the model has no chunk size (reads are slices of the plaintext): a reconfigured reopen is a reopen
+            let ans = m.ask(if op.starts_with("reopen-cs ") { "reopen" } else { op.as_str() });
             let (x, y) = ans.split_once(" || ").unwrap_or((ans.as_str(), ans.as_str()));
             a.push(x.to_string());
             b.push(y.to_string());
